@@ -2,6 +2,7 @@ import VelaVerif.Lemmas.EmitProg
 import VelaVerif.Spec.OpCheck
 import VelaVerif.Lemmas.EmitExample
 import VelaVerif.Model.Shram
+import VelaVerif.Model.Scaling
 /-!
 # C06 — the register command stream encodes exactly the operations it was given
 
@@ -161,6 +162,22 @@ theorem negative_ofm_scale_witness :
     OpCheck.legaliseScale (some (-1177933312, 30)) = some (3117033984, 30) ∧
     OpCheck.scaleOutside "ofmScale" (some (-1177933312, 30)) = ["ofmScale=-1177933312"] ∧
     OpCheck.scaleOutside "ofmScale" (OpCheck.legaliseScale (some (-1177933312, 30))) = [] := by decide
+
+/-- **Why repair C06-20 changes nothing but the multiplier** (model of `scaling.quantise_scale`, `Model/Scaling.lean`, every
+    finite value): the pair computed for a negated scale is the pair of its magnitude with the multiplier negated — in particular the
+    *shift* is the same.  The repair gives the alpha constant of the int32 MUL the scale |alpha| instead of alpha: the OFM_SCALE shift
+    (the only part an int32 MUL uses) is unchanged, the multiplier becomes one the register can hold. -/
+theorem quantise_scale_negated (m : Nat) (e : Int) :
+    Scaling.quantiseScale (.fin true m e) =
+      (match Scaling.quantiseScale (.fin false m e) with
+       | .ok (s, sh) => .ok (-s, sh)
+       | .error err => .error err) := by
+  unfold Scaling.quantiseScale
+  by_cases h : m = 0 ∨ m ≥ 2 ^ 53 <;> simp [h]
+
+/-- non-vacuity: alpha = -2.0 (`m = 1, e = 1`) gives (-2^30, 29), |alpha| gives (2^30, 29) -/
+example : Scaling.quantiseScale (.fin true 1 1) = .ok (-1073741824, 29) ∧
+    Scaling.quantiseScale (.fin false 1 1) = .ok (1073741824, 29) := by decide
 
 /-- legalising is the identity on exactly the legal scales, and its result is always legal -/
 theorem legaliseScale_legal (s sh : Int) :
